@@ -112,6 +112,7 @@ func runC09(r *core.Run) {
 	alignAllLengthPairs(r, "sym:2:-1:-1:0", judgeOptimal(r, nil))
 	alignBufferReuse(r, []string{"sym:1:-1:-1:0", "sym:2:-3:-2:0"})
 	alignAllBytes(r, true, []string{"2:-1:-1:0", "1:-3:0:0"}, judgeOptimal(r, nil))
+	alignAllBytePairs(r, judgeOptimal(r, nil))
 	alignAliasing(r, "AB", core.Pick(r, 4, 5), []string{"sym:1:-1:-1:0", "sym:2:-3:-2:0", "sym:0:-1:-1:0", "asym:1:0", "Levenshtein"}, judgeOptimal(r, nil))
 
 	core.Clause(r, "levenshtein", core.Opts{Rule: "every ordered pair over {a,b,c} up to the bound (and over {0x00,0xFE,a} up to 3): Global score == -(Wagner-Fischer edit distance), Local score == optimum; non-trivial = both non-empty"},
